@@ -117,6 +117,13 @@ CLAIMED = {
          "LSP sets the flag on didChange and clears it on didSave. One reviewed residual: release() racing a lock() of another LSP instance on the same file.",
          "Trusted: rustc MIR; rename(2) atomicity; fd-lock advisory locks; no PID reuse while a file is examined.",
          "DESIGN.md §9"),
+ "C26": ("E-MIR+E-TAB", "other", "MIR FIELDS + self-recursion-over-dependencies rules on the two cache-validity predicates; guard-edge dominance at the reuse sites; comparison-direction SPEC (syn)",
+         "Decides: both validity predicates consult every staleness field of a cache entry, conjoin their own check with a recursive check of "
+         "every recorded dependency (validity is transitive), compare versions as `file version <= cached version`, and cached Programs / typed "
+         "modules are returned only on the true edge of the corresponding predicate for the same path. Equality of a reused result with a fresh "
+         "compilation (garbage collection of engines, diagnostics replay) is not decided.",
+         "Trusted: rustc MIR; syn; dependencies lists are complete.",
+         "DESIGN.md §3 C26"),
  "C29": ("E-TAB+E-MIR", "other", "finite-domain abstract evaluation of TestResult::passed over its syntax tree (4 expectations x 8 final states, exact for every case the code can distinguish); MIR provenance rules for per-test setup, storage cloning and reported fields",
          "Decides: the pass/fail verdict equals the stated table on a finite domain that separates ShouldRevert(Some c) / ShouldRevert(None) / "
          "ShouldNotRevert and Revert(c) / Revert(c') / non-revert states; every test's executor receives a TestSetup produced inside the per-test "
